@@ -60,6 +60,11 @@ type Task struct {
 	consec int
 	inline int
 	steps  int
+	prio   int
+
+	stepsAtForce  int
+	held          bool
+	sinceProgress int
 
 	exiting  bool
 	mismatch int
@@ -74,6 +79,19 @@ type Config struct {
 	YieldDenom   int // at a sync point the holder parks with probability 1/YieldDenom (1: always)
 	PlainRange   int // plain-point preemption: next countdown drawn from [0,PlainRange), 0 = never again (0: disabled)
 	Foreign      bool // control goroutines created by uninstrumented code once they reach an instrumented point
+	// PCT > 0 selects the priority-based strategy (Burckhardt et al., PCT): every task gets a random
+	// priority when it is created, the runnable task with the highest priority always runs, and at
+	// PCT-1 step numbers drawn uniformly from [1, PCTSteps] the running task drops below all others.
+	// It finds orderings of depth PCT that a random walk reaches only with vanishing probability
+	// (e.g. "this task runs to completion while those two stay parked inside their operation").
+	PCT      int
+	PCTSteps int
+	// HoldOrdinal > 0 selects the location-hold strategy: the HoldOrdinal-th distinct point at which a
+	// task parks in this run becomes the hold point; every task that parks there is kept back until
+	// nothing else can run (then all held tasks are released together). This lines several tasks up
+	// inside the same window of the code under test - e.g. after a "stopped?" check and before the
+	// enqueue it guards - while another task (a Shutdown) runs to completion.
+	HoldOrdinal int
 }
 
 // OutcomeKind classifies how a run ended.
@@ -136,6 +154,12 @@ type Sim struct {
 	pcount   int
 
 	forceQuantum time.Duration
+	seqAtStep    uint64
+	pctChange    []int
+	pctLow       int
+	holdSeen     map[uint32]bool
+	holdPoint    uint32
+	holdReleased bool
 
 	settling    bool
 	settleQuiet time.Duration
@@ -205,6 +229,19 @@ func New(tape *Tape, cfg Config) *Sim {
 	if cfg.PlainRange > 0 {
 		s.drawPlain()
 	}
+	if cfg.HoldOrdinal > 0 {
+		s.holdSeen = map[uint32]bool{}
+		s.cfg.YieldDenom = 1
+	}
+	if cfg.PCT > 0 {
+		if s.cfg.PCTSteps <= 0 {
+			s.cfg.PCTSteps = 200
+		}
+		for i := 1; i < cfg.PCT; i++ {
+			s.pctChange = append(s.pctChange, 1+tape.Draw(StSched, s.cfg.PCTSteps))
+		}
+		s.cfg.YieldDenom = 1
+	}
 	active.Store(s)
 	return s
 }
@@ -248,6 +285,7 @@ func (s *Sim) newTask(name string, workload bool) *Task {
 	t := &Task{Name: name, Workload: workload, grant: make(chan struct{}), state: stParked}
 	s.mu.Lock()
 	t.ID = len(s.tasks)
+	t.prio = -1 // drawn by the scheduler when the task is first considered (token discipline for the tape)
 	s.tasks = append(s.tasks, t)
 	s.mu.Unlock()
 	return t
@@ -376,6 +414,17 @@ func (s *Sim) park(t *Task, id uint32, wk waitKind, want unsafe.Pointer) {
 	t.point = id
 	t.wk = wk
 	t.want = want
+	if s.holdSeen != nil && wk == wkNone && id != 0 {
+		if s.holdPoint == 0 && !s.holdSeen[id] {
+			s.holdSeen[id] = true
+			if len(s.holdSeen) == s.cfg.HoldOrdinal {
+				s.holdPoint = id
+			}
+		}
+		if id == s.holdPoint && !s.holdReleased {
+			t.held = true
+		}
+	}
 	if s.cur == t {
 		s.cur = nil
 		s.curG.Store(0)
@@ -642,8 +691,20 @@ func (s *Sim) Run() Outcome {
 			if t.state == stBlocked && !t.Foreign {
 				blocked++
 			}
-			if t.state == stParked && s.enabled(t) {
+			if t.state == stParked && s.enabled(t) && !t.held {
 				cands = append(cands, t)
+			}
+		}
+		if len(cands) == 0 {
+			// nothing else can run: release the tasks lined up at the hold point, once
+			for _, t := range s.tasks {
+				if t.held {
+					t.held = false
+					s.holdReleased = true
+					if t.state == stParked && s.enabled(t) {
+						cands = append(cands, t)
+					}
+				}
 			}
 		}
 		if alive == 0 && !s.settling {
@@ -669,6 +730,15 @@ func (s *Sim) Run() Outcome {
 			return Outcome{Hang, fmt.Sprintf("workload unfinished after %v of forced idle time (%v simulated): %s", s.Idle, now, d)}
 		}
 		s.Steps++
+		if s.seq != s.seqAtStep {
+			for _, t := range s.tasks {
+				t.sinceProgress = 0
+			}
+			// the harness recorded an event (an operation was invoked or returned, a stub was called):
+			// the system is making progress, this is not a spin loop starving a timer
+			s.seqAtStep = s.seq
+			s.sinceAdvance = 0
+		}
 		// let time pass?
 		adv := time.Duration(-1)
 		if len(cands) == 0 && s.settling {
@@ -722,7 +792,22 @@ func (s *Sim) Run() Outcome {
 			case <-tm.C:
 			}
 			if forced {
-				s.Idle += s.Now() - before
+				// Forced idle time only counts towards the hang verdict if the schedule has been fair
+				// since the last forced wait: every task that is runnable now has run at least once.
+				// A starved runnable task (PCT priorities, an adversarial replay tape) means nothing
+				// can be demanded of this schedule.
+				fair := true
+				s.mu.Lock()
+				for _, t := range s.tasks {
+					if t.state == stParked && s.enabled(t) && t.steps == t.stepsAtForce {
+						fair = false
+					}
+					t.stepsAtForce = t.steps
+				}
+				s.mu.Unlock()
+				if fair || len(cands) == 0 {
+					s.Idle += s.Now() - before
+				}
 			}
 			s.traceEv(TraceEv{Step: s.Steps, AdvNs: int64(s.Now() - before), NowNs: int64(s.Now())})
 			continue
@@ -738,8 +823,43 @@ func (s *Sim) Run() Outcome {
 				}
 			}
 		}
-		idx := s.Tape.Draw(StSched, len(cands))
-		pick := cands[idx]
+		var pick *Task
+		if s.cfg.PCT > 0 {
+			for _, t := range cands {
+				if t.prio < 0 {
+					t.prio = 1000 + s.Tape.Draw(StSched, 100000)
+				}
+			}
+			best := func() *Task {
+				var b *Task
+				for _, t := range cands {
+					if b == nil || t.prio > b.prio || (t.prio == b.prio && t.ID < b.ID) {
+						b = t
+					}
+				}
+				return b
+			}
+			pick = best()
+			for _, at := range s.pctChange {
+				if at == s.Steps {
+					s.pctLow++
+					pick.prio = 1000 - s.pctLow // below every initial priority, above later demotions' successors
+					pick = best()
+				}
+			}
+			// starvation guard: a task that has been granted fairLimit steps since the harness last saw
+			// progress (spin loops in the code under test, possibly several taking turns) drops below
+			// the tasks it may be waiting for
+			for pick.sinceProgress > fairLimit && len(cands) > 1 {
+				s.pctLow++
+				pick.prio = 1000 - s.pctLow
+				pick.sinceProgress = 0
+				pick = best()
+			}
+			pick.sinceProgress++
+		} else {
+			pick = cands[s.Tape.Draw(StSched, len(cands))]
+		}
 		if pick == s.last {
 			pick.consec++
 			if pick.consec > fairLimit && len(cands) > 1 {
